@@ -482,8 +482,9 @@ class ExcelModel:
                 if set(pred[inp]) == {c.func.function_id}:
                     out = list(c.inputs)[0]
                     if not any(out in succ[k] for k in succ[inp]):
-                        dsp.add_function(
-                            '=%s' % inp, sh.bypass, inputs=[inp], outputs=[out]
+                        dsp.add_function(  # No distance: see RangesAssembler.
+                            '=%s' % inp, sh.bypass, inputs=[inp], outputs=[out],
+                            weight=0, inp_weight={inp: 0}, out_weight={out: 0}
                         )
                         d = nodes[inp]
                         d['inv-data'] = {out}
